@@ -1047,6 +1047,8 @@ def judge(c, out):
             lim = c.cap
         if lim is not None and a > lim:
             return "VIOL", f"reported size {a} exceeds the limit {lim}"
+        if "statsview=outside" in t:
+            return "STATSVIEW", a
         return "OK", a
     if k == "ERR":
         return "ERR", t[1] if len(t) > 1 else ""
@@ -1099,6 +1101,15 @@ def run_cases(rep, drv, cases, stats, label=""):
         stats["by_tag"][c.tag or label] = stats["by_tag"].get(c.tag or label, 0) + 1
         if k == "UB":
             ubs.append((c, li, d))
+        if k == "STATSVIEW":
+            # parquet_parse_page_header returned OK with has_statistics set and a min/max view outside the input:
+            # the three sub-headers share a union, a second sub-header (field 7 / 8) overwrites the pointers that
+            # field 5 borrowed from the input (open finding, reported to the thrift engine)
+            stats["statsview"] = stats.get("statsview", 0) + 1
+            rep.violation("thrift_ph: parquet_parse_page_header returns OK with data_page_header.has_statistics = 1 and a "
+                          "statistics min/max pointer outside the input (union overlap with a second sub-header)",
+                          {"case": li, "entry_point": c.op}, key="thrift_ph:union-overlap-statistics-view")
+            k = "OK"
         res.append((c, li, k, d, o))
     # UBSan reports: separate bucket; violation only if the ASan-only build faults or misreports as well
     if ubs:
@@ -1208,6 +1219,7 @@ def run(tier):
     rep.cov["by_entry_point"] = stats["by_op"]
     rep.cov["input_distribution"] = stats["by_tag"]
     rep.cov["ub_reports"] = stats["ub"]
+    rep.cov["page_header_statistics_views_outside_input"] = stats.get("statsview", 0)
     rep.cov["ub_shift_reports"] = sum(v["count"] for k, v in stats["ub"].items() if k.startswith("shift"))
     rep.cov["ub_reports_memory_safe_in_asan_only_build"] = stats["ub_memory_safe"]
     rep.cov["harness_wall_s"] = round(time.time() - t0, 1)
